@@ -3,7 +3,7 @@
    their modifiers, descent with the merged schema, final sort), compared with
    SemanticTokensInFile on every run; tokens inside values are decided on the implementation. *)
 From Coq Require Import String List ZArith Bool Sorted Permutation.
-From HV Require Import Base.SortSpec Model.Schema Model.Ast Model.BodyQueries Proofs.BodyQueriesProofs.
+From HV Require Import Base.SortSpec Model.Schema Model.Ast Model.BodyQueries Proofs.BodyQueriesProofs Proofs.TokenPlaces.
 
 (* every token carries the modifiers of all enclosing blocks, outermost first, then its own *)
 Theorem C13_tokens_inherit_enclosing_modifiers : forall b bs mods,
@@ -26,3 +26,16 @@ Theorem C13_sorting_adds_and_drops_nothing : forall schema b,
   Permutation (tokens_body schema nil b) (tokens_in_file schema b).
 Proof. exact tokens_in_file_perm. Qed.
 Print Assumptions C13_sorting_adds_and_drops_nothing.
+
+(* the tokens are a subsequence of the attribute names, block types and labels written in the file,
+   in the order of the walk: every written element yields at most one token and nothing else yields one *)
+Theorem C13_tokens_subsequence_of_written_elements : forall b bs mods,
+  sublist (map st_rng (tokens_body bs mods b)) (places b).
+Proof. exact tokens_subsequence_of_places. Qed.
+Print Assumptions C13_tokens_subsequence_of_written_elements.
+
+(* hence pairwise disjoint wherever the parser keeps names, types and labels apart *)
+Theorem C13_tokens_pairwise_disjoint : forall b bs mods,
+  ForallOrdPairs disjoint (places b) -> ForallOrdPairs disjoint (map st_rng (tokens_body bs mods b)).
+Proof. exact tokens_pairwise_disjoint. Qed.
+Print Assumptions C13_tokens_pairwise_disjoint.
